@@ -586,6 +586,9 @@ class Controller:
         return None
 
     def find_classic_connection_by_handle(self, handle: int) -> Connection | None:
+        if handle == 0:
+            # Not a connection yet (see find_connection_by_handle)
+            return None
         for connection in self.classic_connections.values():
             if connection.handle == handle:
                 return connection
